@@ -1,5 +1,4 @@
-import SciVerif.Drive.Util
+import SciVerif.Drive.C05
 open Lean SciVerif.Drive
 
-/-- C05 model driver: not built yet. -/
-def main : IO Unit := serve (fun _ => throw "C05: no model yet")
+def main : IO Unit := serve SciVerif.C05.Drive.handle
